@@ -3,6 +3,9 @@
    never runs out of fuel, costs at most V + E + 1 steps per call, and the whole detection is
    polynomial in V, E and the number of output records. *)
 From Grog Require Import Str Label Graph Select Select_proofs ConflictCost.
+(* the label-level model of the analysis engine: qualified names only (it has its own [reach],
+   [acyclic], [dependants] ...), used in the last section *)
+From Grog Require Analysis Analysis_base Ancestors_proofs.
 From Coq Require Import Lia.
 
 (* ------------------------------------------------------------------ sets as lists *)
@@ -80,10 +83,6 @@ Proof.
   apply Nat.eqb_neq in E. intros H [H1 | H1]; [exact (E H1) | exact (IH H H1)].
 Qed.
 
-(* every cached entry is the true ancestor set of its key, as a duplicate-free list *)
-Definition cache_sound (g : graph) (c : cache) : Prop :=
-  forall k s, cache_get c k = Some s -> NoDup s /\ forall x, In x s <-> reach g x k.
-
 Lemma cache_sound_nil g : cache_sound g [].
 Proof. intros k s H. discriminate H. Qed.
 
@@ -125,3 +124,1115 @@ Lemma anc_step_none seen g c s : anc_step seen g c s = None <-> s_stack s = [].
 Proof.
   unfold anc_step. destruct (s_stack s) as [| a rest]; split; intro H; try reflexivity; discriminate.
 Qed.
+
+(* ------------------------------------------------------------------ the loop, generically *)
+
+(* an invariant kept by every iteration and a measure that every iteration decreases: with
+   that much fuel the loop ends, on an empty stack, in a state satisfying the invariant *)
+Lemma anc_loop_inv seen g c (P : st -> Prop) (mu : st -> nat) :
+  (forall s s', P s -> anc_step seen g c s = Some s' -> P s' /\ mu s' < mu s) ->
+  forall fuel s, P s -> mu s <= fuel ->
+    exists s', anc_loop seen g c fuel s = LoopDone s' /\ P s' /\ s_stack s' = [].
+Proof.
+  intros Hstep fuel. induction fuel as [| f IH]; intros s HP Hmu.
+  - cbn [anc_loop]. destruct (anc_step seen g c s) as [s' |] eqn:E.
+    + destruct (Hstep s s' HP E) as [_ Hlt]. lia.
+    + exists s. split; [reflexivity |]. split; [exact HP | apply (anc_step_none seen g c s); exact E].
+  - cbn [anc_loop]. destruct (anc_step seen g c s) as [s' |] eqn:E.
+    + destruct (Hstep s s' HP E) as [HP' Hlt]. apply IH; [exact HP' | lia].
+    + exists s. split; [reflexivity |]. split; [exact HP | apply (anc_step_none seen g c s); exact E].
+Qed.
+
+(* ------------------------------------------------------------------ what is left to expand *)
+
+(* the dependency lists of the nodes not yet in the set: an upper bound of the pushes to come *)
+Definition undone (g : graph) (set : list nat) (x : nat) : nat :=
+  if mem_nat x set then 0 else length (deps g x).
+Definition unexp_on (g : graph) (set l : list nat) : nat := list_sum (map (undone g set) l).
+Definition unexp (g : graph) (set : list nat) : nat := unexp_on g set (seq 0 (size g)).
+
+Lemma unexp_on_mono g set set' l :
+  (forall x, In x set -> In x set') -> unexp_on g set' l <= unexp_on g set l.
+Proof.
+  intro Hincl. unfold unexp_on. induction l as [| y l IH]; simpl; [lia |].
+  assert (H : undone g set' y <= undone g set y).
+  { unfold undone. destruct (mem_nat y set) eqn:E.
+    - apply mem_nat_spec in E. apply Hincl in E. apply mem_nat_spec in E. rewrite E. lia.
+    - destruct (mem_nat y set'); lia. }
+  lia.
+Qed.
+
+Lemma undone_cons_other g set a y : y <> a -> undone g (a :: set) y = undone g set y.
+Proof.
+  intro H. unfold undone, mem_nat. cbn [existsb]. apply Nat.eqb_neq in H. rewrite H. reflexivity.
+Qed.
+
+Lemma unexp_on_step g set y l : unexp_on g set (y :: l) = undone g set y + unexp_on g set l.
+Proof. reflexivity. Qed.
+
+Lemma unexp_on_cons_notin g set a l : ~ In a l -> unexp_on g (a :: set) l = unexp_on g set l.
+Proof.
+  intro H. induction l as [| y l IH]; [reflexivity |].
+  rewrite !unexp_on_step, undone_cons_other.
+  - rewrite IH; [reflexivity |]. intro Hin. apply H. right. exact Hin.
+  - intro E. apply H. left. exact E.
+Qed.
+
+Lemma unexp_on_cons_in g set a l :
+  NoDup l -> In a l -> ~ In a set -> unexp_on g (a :: set) l + length (deps g a) = unexp_on g set l.
+Proof.
+  intros Hnd Hin Hset. induction l as [| y l IH]; [destruct Hin |].
+  inversion Hnd as [| y' l' Hy Hnd']; subst. rewrite !unexp_on_step.
+  destruct (Nat.eq_dec y a) as [E | E].
+  - subst y. rewrite (unexp_on_cons_notin g set a l Hy).
+    assert (E1 : undone g (a :: set) a = 0).
+    { unfold undone, mem_nat. cbn [existsb]. rewrite Nat.eqb_refl. reflexivity. }
+    assert (E2 : undone g set a = length (deps g a)).
+    { unfold undone. apply mem_nat_false in Hset. rewrite Hset. reflexivity. }
+    rewrite E1, E2. lia.
+  - rewrite (undone_cons_other g set a y E).
+    destruct Hin as [Hin | Hin]; [contradiction |]. specialize (IH Hnd' Hin). lia.
+Qed.
+
+Lemma unexp_cons g set a : ~ In a set -> unexp g (a :: set) + length (deps g a) = unexp g set.
+Proof.
+  intro Hset. unfold unexp. destruct (Nat.lt_ge_cases a (size g)) as [L | L].
+  - apply unexp_on_cons_in; [apply seq_NoDup | apply in_seq; lia | exact Hset].
+  - rewrite unexp_on_cons_notin by (intro H; apply in_seq in H; lia).
+    unfold deps, size in *. rewrite (nth_overflow g [] L). simpl. lia.
+Qed.
+
+Lemma unexp_mono g set set' : (forall x, In x set -> In x set') -> unexp g set' <= unexp g set.
+Proof. apply unexp_on_mono. Qed.
+
+Lemma n_edges_edges g : n_edges g = edges g.
+Proof. unfold n_edges. symmetry. apply edges_list_sum. Qed.
+
+Lemma unexp_nil g : unexp g [] = n_edges g.
+Proof.
+  unfold unexp, unexp_on, n_edges. rewrite <- map_deps_length. f_equal.
+Qed.
+
+Lemma unexp_notin g set n : ~ In n set -> length (deps g n) <= unexp g set.
+Proof. intro H. pose proof (unexp_cons g set n H). lia. Qed.
+
+(* ------------------------------------------------------------------ invariants of one call *)
+
+Lemma reach_lt_size g x n : wf_graph g -> reach g x n -> x < size g.
+Proof.
+  intros Hwf H. induction H as [x n Hin | x b n Hxb IH Hin]; [exact (Hwf n x Hin) | exact IH].
+Qed.
+
+Lemma reach_dep g d a n : In d (deps g a) -> reach g a n -> reach g d n.
+Proof. intros Hd Ha. exact (reach_transitive g d a n (reach_step g d a Hd) Ha). Qed.
+
+(* soundness: whatever is on the stack or in the set is an ancestor of n; the set is
+   duplicate free *)
+Definition inv_sound (g : graph) (n : nat) (s : st) : Prop :=
+  (forall a, In a (s_stack s) -> reach g a n) /\
+  (forall x, In x (s_set s) -> reach g x n) /\
+  NoDup (s_set s).
+
+(* closure: the dependencies of n and of every member of the set are in the set or still on
+   the stack *)
+Definition inv_closed (g : graph) (n : nat) (s : st) : Prop :=
+  (forall d, In d (deps g n) -> In d (s_set s) \/ In d (s_stack s)) /\
+  (forall x d, In x (s_set s) -> In d (deps g x) -> In d (s_set s) \/ In d (s_stack s)).
+
+(* cost: pops made + pops to come never exceed the initial push plus all edges *)
+Definition inv_cost (g : graph) (n : nat) (s : st) : Prop :=
+  s_pops s + length (s_stack s) + unexp g (s_set s) <= length (deps g n) + n_edges g /\
+  s_fresh s <= length (s_set s) /\
+  s_merged s <= size g * s_fresh s.
+
+Definition loop_mu (g : graph) (s : st) : nat := length (s_stack s) + unexp g (s_set s).
+
+Lemma inv_sound_step g c n s s' :
+  cache_sound g c -> inv_sound g n s -> step_case g c s s' -> inv_sound g n s'.
+Proof.
+  intros Hc [Hst [Hset Hnd]] Hcase.
+  destruct Hcase as [a rest Es Hin E | a rest cs Es Hnin Ec E | a rest Es Hnin Ec E];
+    subst s'; unfold inv_sound; cbn [s_stack s_set]; rewrite Es in Hst.
+  - split; [intros b Hb; apply Hst; right; exact Hb |]. split; assumption.
+  - assert (Ha : reach g a n) by (apply Hst; left; reflexivity).
+    destruct (Hc a cs Ec) as [Hcnd Hcs].
+    split; [intros b Hb; apply Hst; right; exact Hb |]. split.
+    + intros x Hx. apply add_all_in in Hx. destruct Hx as [Hx | [Hx | Hx]].
+      * apply Hcs in Hx. exact (reach_transitive g x a n Hx Ha).
+      * subst x. exact Ha.
+      * exact (Hset x Hx).
+    + apply add_all_nodup. constructor; assumption.
+  - assert (Ha : reach g a n) by (apply Hst; left; reflexivity).
+    split.
+    + intros b Hb. apply in_app_or in Hb. destruct Hb as [Hb | Hb].
+      * apply in_rev in Hb. exact (reach_dep g b a n Hb Ha).
+      * apply Hst. right. exact Hb.
+    + split; [| constructor; assumption].
+      intros x [Hx | Hx]; [subst x; exact Ha | exact (Hset x Hx)].
+Qed.
+
+Lemma inv_closed_step g c n s s' :
+  cache_sound g c -> inv_closed g n s -> step_case g c s s' -> inv_closed g n s'.
+Proof.
+  intros Hc [Hn Hcl] Hcase.
+  destruct Hcase as [a rest Es Hin E | a rest cs Es Hnin Ec E | a rest Es Hnin Ec E];
+    subst s'; unfold inv_closed; cbn [s_stack s_set]; rewrite Es in Hn, Hcl.
+  - assert (K : forall d, In d (s_set s) \/ In d (a :: rest) -> In d (s_set s) \/ In d rest).
+    { intros d [H | [H | H]]; [left; exact H | subst d; left; exact Hin | right; exact H]. }
+    split; [intros d Hd; apply K, Hn, Hd | intros x d Hx Hd; apply K, (Hcl x d Hx Hd)].
+  - destruct (Hc a cs Ec) as [_ Hcs].
+    assert (K : forall d, In d (s_set s) \/ In d (a :: rest) ->
+                          In d (add_all cs (a :: s_set s)) \/ In d rest).
+    { intros d [H | [H | H]].
+      - left. apply add_all_in. right. right. exact H.
+      - subst d. left. apply add_all_in. right. left. reflexivity.
+      - right. exact H. }
+    split; [intros d Hd; apply K, Hn, Hd |].
+    intros x d Hx Hd. apply add_all_in in Hx. destruct Hx as [Hx | [Hx | Hx]].
+    + left. apply add_all_in. left. apply Hcs. apply Hcs in Hx. exact (reach_dep g d x a Hd Hx).
+    + subst x. left. apply add_all_in. left. apply Hcs. apply reach_step. exact Hd.
+    + apply K, (Hcl x d Hx Hd).
+  - assert (K : forall d, In d (s_set s) \/ In d (a :: rest) ->
+                          In d (a :: s_set s) \/ In d (rev (deps g a) ++ rest)).
+    { intros d [H | [H | H]].
+      - left. right. exact H.
+      - subst d. left. left. reflexivity.
+      - right. apply in_or_app. right. exact H. }
+    split; [intros d Hd; apply K, Hn, Hd |].
+    intros x d [Hx | Hx] Hd.
+    + subst x. right. apply in_or_app. left. apply in_rev in Hd. exact Hd.
+    + apply K, (Hcl x d Hx Hd).
+Qed.
+
+Lemma cached_set_small g c a cs :
+  wf_graph g -> cache_sound g c -> cache_get c a = Some cs -> length cs <= size g.
+Proof.
+  intros Hwf Hc Ec. destruct (Hc a cs Ec) as [Hnd Hcs].
+  apply nodup_below_length; [exact Hnd |]. intros x Hx. apply Hcs in Hx. exact (reach_lt_size g x a Hwf Hx).
+Qed.
+
+Lemma loop_mu_step g c s s' : step_case g c s s' -> loop_mu g s' < loop_mu g s.
+Proof.
+  intro Hcase. unfold loop_mu.
+  destruct Hcase as [a rest Es Hin E | a rest cs Es Hnin Ec E | a rest Es Hnin Ec E];
+    subst s'; cbn [s_stack s_set]; rewrite Es; cbn [length].
+  - lia.
+  - assert (H : unexp g (add_all cs (a :: s_set s)) <= unexp g (s_set s)).
+    { apply unexp_mono. intros x Hx. apply add_all_in. right. right. exact Hx. }
+    lia.
+  - pose proof (unexp_cons g (s_set s) a Hnin) as H.
+    rewrite app_length, rev_length. lia.
+Qed.
+
+Lemma inv_cost_step g c n s s' :
+  wf_graph g -> cache_sound g c -> inv_cost g n s -> step_case g c s s' -> inv_cost g n s'.
+Proof.
+  intros Hwf Hc [Hp [Hf Hm]] Hcase.
+  pose proof (loop_mu_step g c s s' Hcase) as Hmu. unfold loop_mu in Hmu.
+  destruct Hcase as [a rest Es Hin E | a rest cs Es Hnin Ec E | a rest Es Hnin Ec E];
+    subst s'; unfold inv_cost; cbn [s_stack s_set s_pops s_fresh s_merged] in *.
+  - split; [lia |]. split; assumption.
+  - split; [lia |]. split.
+    + pose proof (add_all_length cs (a :: s_set s)) as H. cbn [length] in H. lia.
+    + pose proof (cached_set_small g c a cs Hwf Hc Ec) as H. nia.
+  - split; [lia |]. split; [cbn [length]; lia | nia].
+Qed.
+
+(* ------------------------------------------------------------------ one call: the loop as a whole *)
+
+Definition inv_all (g : graph) (n : nat) (s : st) : Prop :=
+  inv_sound g n s /\ inv_closed g n s /\ inv_cost g n s.
+
+Lemma inv_all_init g n : inv_all g n (init_st g n).
+Proof.
+  unfold inv_all, init_st. split; [| split].
+  - unfold inv_sound. cbn [s_stack s_set]. split.
+    + intros a Ha. apply in_rev in Ha. apply reach_step. exact Ha.
+    + split; [intros x [] | constructor].
+  - unfold inv_closed. cbn [s_stack s_set]. split.
+    + intros d Hd. right. apply in_rev in Hd. exact Hd.
+    + intros x d [].
+  - unfold inv_cost. cbn [s_stack s_set s_pops s_fresh s_merged length].
+    rewrite rev_length, unexp_nil. split; [lia |]. split; lia.
+Qed.
+
+Lemma anc_loop_total g c n :
+  wf_graph g -> cache_sound g c ->
+  exists s, anc_loop true g c (anc_fuel g n) (init_st g n) = LoopDone s /\ inv_all g n s /\ s_stack s = [].
+Proof.
+  intros Hwf Hc.
+  apply (anc_loop_inv true g c (inv_all g n) (loop_mu g)).
+  - intros s s' [H1 [H2 H3]] E. apply anc_step_cases in E. split.
+    + split; [exact (inv_sound_step g c n s s' Hc H1 E) |].
+      split; [exact (inv_closed_step g c n s s' Hc H2 E) | exact (inv_cost_step g c n s s' Hwf Hc H3 E)].
+    + exact (loop_mu_step g c s s' E).
+  - apply inv_all_init.
+  - unfold loop_mu, init_st, anc_fuel. cbn [s_stack s_set]. rewrite rev_length, unexp_nil. lia.
+Qed.
+
+(* a set closed under [deps] contains every ancestor of its members *)
+Lemma closed_reach g (R : list nat) :
+  (forall x d, In x R -> In d (deps g x) -> In d R) ->
+  forall a b, reach g a b -> In b R -> In a R.
+Proof.
+  intros Hcl a b H. induction H as [a b Hin | a m b Ham IH Hin]; intro Hb.
+  - exact (Hcl b a Hb Hin).
+  - apply IH. exact (Hcl b m Hb Hin).
+Qed.
+
+(* the final state: the ancestor set, exactly *)
+Lemma final_set_exact g n s :
+  inv_sound g n s -> inv_closed g n s -> s_stack s = [] ->
+  NoDup (s_set s) /\ forall x, In x (s_set s) <-> reach g x n.
+Proof.
+  intros [_ [Hset Hnd]] [Hn Hcl] Es. rewrite Es in Hn, Hcl. split; [exact Hnd |].
+  assert (Hn' : forall d, In d (deps g n) -> In d (s_set s)).
+  { intros d Hd. destruct (Hn d Hd) as [H | []]. exact H. }
+  assert (Hcl' : forall x d, In x (s_set s) -> In d (deps g x) -> In d (s_set s)).
+  { intros x d Hx Hd. destruct (Hcl x d Hx Hd) as [H | []]. exact H. }
+  intro x. split; [apply Hset |].
+  intro H. inversion H as [x' n' Hin | x' b n' Hxb Hin]; subst.
+  - exact (Hn' x Hin).
+  - exact (closed_reach g (s_set s) Hcl' x b Hxb (Hn' b Hin)).
+Qed.
+
+(* ------------------------------------------------------------------ one call of getAncestorSet *)
+
+(* what the counters of a call that missed the cache satisfy *)
+Definition miss_cost (g : graph) (n : nat) (set : list nat) (k : cost) : Prop :=
+  c_calls k = 1 /\
+  c_pops k + unexp g set <= length (deps g n) + n_edges g /\
+  c_fresh k <= length set /\
+  c_merged k <= size g * c_fresh k.
+
+Definition hit_cost : cost := mkCost 1 0 0 0.
+
+Lemma ancestor_set_c_spec g c n :
+  wf_graph g -> cache_sound g c ->
+  exists set c' k,
+    ancestor_set_c g c n = Some (set, c', k) /\
+    NoDup set /\ (forall x, In x set <-> reach g x n) /\ cache_sound g c' /\
+    ((cache_get c n = Some set /\ c' = c /\ k = hit_cost) \/
+     (cache_get c n = None /\ c' = (n, set) :: c /\ miss_cost g n set k)).
+Proof.
+  intros Hwf Hc. unfold ancestor_set_c. destruct (cache_get c n) as [cs |] eqn:Ec.
+  - destruct (Hc n cs Ec) as [Hnd Hcs].
+    exists cs, c, hit_cost. split; [reflexivity |]. split; [exact Hnd |]. split; [exact Hcs |].
+    split; [exact Hc |]. left. split; [reflexivity |]. split; reflexivity.
+  - destruct (anc_loop_total g c n Hwf Hc) as [s [El [[H1 [H2 H3]] Es]]]. rewrite El.
+    destruct (final_set_exact g n s H1 H2 Es) as [Hnd Hset].
+    exists (s_set s), ((n, s_set s) :: c), (mkCost 1 (s_pops s) (s_fresh s) (s_merged s)).
+    split; [reflexivity |]. split; [exact Hnd |]. split; [exact Hset |].
+    split; [apply cache_sound_cons; assumption |].
+    right. split; [reflexivity |]. split; [reflexivity |].
+    destruct H3 as [Hp [Hf Hm]]. unfold miss_cost. cbn [c_calls c_pops c_fresh c_merged].
+    rewrite Es in Hp. cbn [length] in Hp. split; [reflexivity |]. split; [lia |]. split; assumption.
+Qed.
+
+Lemma ancestor_set_size g n set :
+  wf_graph g -> NoDup set -> (forall x, In x set <-> reach g x n) -> length set <= size g.
+Proof.
+  intros Hwf Hnd Hset. apply nodup_below_length; [exact Hnd |].
+  intros x Hx. apply Hset in Hx. exact (reach_lt_size g x n Hwf Hx).
+Qed.
+
+Lemma miss_cost_bounds g n set k :
+  wf_graph g -> NoDup set -> (forall x, In x set <-> reach g x n) -> miss_cost g n set k ->
+  c_calls k = 1 /\ c_pops k <= length (deps g n) + n_edges g /\ c_fresh k <= size g /\
+  c_merged k <= size g * size g /\ (~ reach g n n -> c_pops k <= n_edges g).
+Proof.
+  intros Hwf Hnd Hset [Hc [Hp [Hf Hm]]].
+  pose proof (ancestor_set_size g n set Hwf Hnd Hset) as Hlen.
+  split; [exact Hc |]. split; [lia |]. split; [lia |]. split; [nia |].
+  intro Hac. assert (Hn : ~ In n set) by (intro H; apply Hset in H; exact (Hac H)).
+  pose proof (unexp_notin g set n Hn). lia.
+Qed.
+
+Lemma hit_cost_bounds g n :
+  c_calls hit_cost = 1 /\ c_pops hit_cost <= length (deps g n) + n_edges g /\ c_fresh hit_cost <= size g /\
+  c_merged hit_cost <= size g * size g /\ (~ reach g n n -> c_pops hit_cost <= n_edges g).
+Proof. unfold hit_cost. cbn [c_calls c_pops c_fresh c_merged]. repeat split; lia. Qed.
+
+(* never out of fuel *)
+Theorem ancestor_set_c_total g c n :
+  wf_graph g -> cache_sound g c -> ancestor_set_c g c n <> None.
+Proof.
+  intros Hwf Hc. destruct (ancestor_set_c_spec g c n Hwf Hc) as [set [c' [k [E _]]]]. rewrite E. discriminate.
+Qed.
+
+(* the returned list is the ancestor set, duplicate free, and the cache stays sound *)
+Theorem ancestor_set_c_correct g c n set c' k :
+  wf_graph g -> cache_sound g c -> ancestor_set_c g c n = Some (set, c', k) ->
+  NoDup set /\ (forall x, In x set <-> reach g x n) /\ cache_sound g c' /\ cache_get c' n = Some set.
+Proof.
+  intros Hwf Hc E. destruct (ancestor_set_c_spec g c n Hwf Hc) as [set0 [c0 [k0 [E0 [Hnd [Hset [Hc' Hcase]]]]]]].
+  rewrite E in E0. inversion E0; subst set0 c0 k0. split; [exact Hnd |]. split; [exact Hset |]. split; [exact Hc' |].
+  destruct Hcase as [[Eg [Ec _]] | [_ [Ec _]]]; subst c'; [exact Eg |].
+  rewrite cache_get_cons, Nat.eqb_refl. reflexivity.
+Qed.
+
+(* all the bounds of one call *)
+Lemma ancestor_set_c_cost g c n set c' k :
+  wf_graph g -> cache_sound g c -> ancestor_set_c g c n = Some (set, c', k) ->
+  c_calls k = 1 /\ c_pops k <= length (deps g n) + n_edges g /\ c_fresh k <= size g /\
+  c_merged k <= size g * size g /\ (~ reach g n n -> c_pops k <= n_edges g).
+Proof.
+  intros Hwf Hc E. destruct (ancestor_set_c_spec g c n Hwf Hc) as [set0 [c0 [k0 [E0 [Hnd [Hset [Hc' Hcase]]]]]]].
+  rewrite E in E0. inversion E0; subst set0 c0 k0.
+  destruct Hcase as [[_ [_ Ek]] | [_ [_ Hk]]].
+  - subst k. apply hit_cost_bounds.
+  - exact (miss_cost_bounds g n set k Hwf Hnd Hset Hk).
+Qed.
+
+(* steps of one call: linear, whatever the number of paths and whatever the (sound) cache *)
+Theorem ancestor_set_c_linear g c n set c' k :
+  wf_graph g -> cache_sound g c -> ~ reach g n n -> ancestor_set_c g c n = Some (set, c', k) ->
+  steps k <= size g + n_edges g + 1.
+Proof.
+  intros Hwf Hc Hac E. destruct (ancestor_set_c_cost g c n set c' k Hwf Hc E) as [H1 [_ [H3 [_ H5]]]].
+  specialize (H5 Hac). unfold steps. lia.
+Qed.
+
+(* without the acyclicity hypothesis the initial push may be repeated once *)
+Theorem ancestor_set_c_linear_cyclic g c n set c' k :
+  wf_graph g -> cache_sound g c -> ancestor_set_c g c n = Some (set, c', k) ->
+  steps k <= size g + n_edges g + length (deps g n) + 1.
+Proof.
+  intros Hwf Hc E. destruct (ancestor_set_c_cost g c n set c' k Hwf Hc E) as [H1 [H2 [H3 _]]].
+  unfold steps. lia.
+Qed.
+
+(* the merge work of one call: at most one cached set per node added *)
+Theorem ancestor_set_c_merged g c n set c' k :
+  wf_graph g -> cache_sound g c -> ancestor_set_c g c n = Some (set, c', k) ->
+  c_merged k <= size g * size g.
+Proof.
+  intros Hwf Hc E. destruct (ancestor_set_c_cost g c n set c' k Hwf Hc E) as [_ [_ [_ [H4 _]]]]. exact H4.
+Qed.
+
+(* ------------------------------------------------------------------ a sequence of calls *)
+
+Lemma topo_acyclic g : topo g -> acyclic g.
+Proof. intros Ht n H. pose proof (reach_topo_lt g n n Ht H). lia. Qed.
+
+Definition cache_ok (g : graph) (c : cache) : Prop := cache_sound g c /\ NoDup (cache_keys c).
+
+(* from cache c to cache c' by at most q calls, on nodes among ns, at total cost k:
+   m = the calls that missed = the entries added; only they cost more than the lookup *)
+Definition grows_by (g : graph) (c c' : cache) (k : cost) (q : nat) (ns : list nat) : Prop :=
+  exists m,
+    length c' = m + length c /\ m <= q /\ c_calls k <= q /\
+    c_pops k <= m * n_edges g /\ c_fresh k <= m * size g /\ c_merged k <= m * (size g * size g) /\
+    (forall x, In x (cache_keys c') -> In x (cache_keys c) \/ In x ns).
+
+Lemma grows_by_refl g c : grows_by g c c cost_zero 0 [].
+Proof.
+  exists 0. unfold cost_zero. cbn [c_calls c_pops c_fresh c_merged].
+  repeat split; try lia. intros x Hx. left. exact Hx.
+Qed.
+
+Lemma grows_by_trans g c c1 c2 k1 k2 q1 q2 ns1 ns2 :
+  grows_by g c c1 k1 q1 ns1 -> grows_by g c1 c2 k2 q2 ns2 ->
+  grows_by g c c2 (cost_add k1 k2) (q1 + q2) (ns1 ++ ns2).
+Proof.
+  intros [m1 [A1 [A2 [A3 [A4 [A5 [A6 A7]]]]]]] [m2 [B1 [B2 [B3 [B4 [B5 [B6 B7]]]]]]].
+  exists (m1 + m2). unfold cost_add. cbn [c_calls c_pops c_fresh c_merged].
+  rewrite !Nat.mul_add_distr_r.
+  repeat split; try lia.
+  intros x Hx. destruct (B7 x Hx) as [H | H].
+  - destruct (A7 x H) as [H' | H']; [left; exact H' | right; apply in_or_app; left; exact H'].
+  - right. apply in_or_app. right. exact H.
+Qed.
+
+Lemma grows_by_weaken g c c' k q q' ns ns' :
+  grows_by g c c' k q ns -> q <= q' -> incl ns ns' -> grows_by g c c' k q' ns'.
+Proof.
+  intros [m [A1 [A2 [A3 [A4 [A5 [A6 A7]]]]]]] Hq Hns. exists m.
+  repeat split; try lia; try assumption.
+  intros x Hx. destruct (A7 x Hx) as [H | H]; [left; exact H | right; exact (Hns x H)].
+Qed.
+
+(* one call, in these terms *)
+Lemma ancestor_set_c_grows g c n set c' k :
+  wf_graph g -> acyclic g -> cache_ok g c -> ancestor_set_c g c n = Some (set, c', k) ->
+  cache_ok g c' /\ grows_by g c c' k 1 [n] /\ forall x, In x set <-> reach g x n.
+Proof.
+  intros Hwf Hac [Hc Hk] E.
+  destruct (ancestor_set_c_spec g c n Hwf Hc) as [set0 [c0 [k0 [E0 [Hnd [Hset [Hc' Hcase]]]]]]].
+  rewrite E in E0. inversion E0; subst set0 c0 k0.
+  destruct Hcase as [[_ [Ec Ek]] | [Eg [Ec Hm]]]; subst c'.
+  - split; [split; assumption |]. split; [| exact Hset].
+    subst k. exists 0. unfold hit_cost. cbn [c_calls c_pops c_fresh c_merged].
+    repeat split; try lia. intros x Hx. left. exact Hx.
+  - split.
+    + split; [exact Hc' |]. unfold cache_keys. cbn [map fst]. constructor; [| exact Hk].
+      exact (cache_get_none_keys c n Eg).
+    + split; [| exact Hset].
+      destruct (miss_cost_bounds g n set k Hwf Hnd Hset Hm) as [H1 [_ [H3 [H4 H5]]]].
+      specialize (H5 (Hac n)). exists 1. cbn [length]. repeat split; try lia.
+      unfold cache_keys. cbn [map fst]. intros x [Hx | Hx]; [right; left; exact Hx | left; exact Hx].
+Qed.
+
+(* ------------------------------------------------------------------ targetsAreOrdered *)
+
+Lemma ordered_c_spec g c a b :
+  wf_graph g -> acyclic g -> cache_ok g c ->
+  exists r c' k,
+    ordered_c g c a b = Some (r, c', k) /\ cache_ok g c' /\ grows_by g c c' k 2 [a; b] /\
+    (r = true <-> ordered_spec g a b).
+Proof.
+  intros Hwf Hac Hok. unfold ordered_c.
+  pose proof (ancestor_set_c_total g c a Hwf (proj1 Hok)) as T1.
+  destruct (ancestor_set_c g c a) as [[[sa c1] k1] |] eqn:E1; [clear T1 | contradiction].
+  destruct (ancestor_set_c_grows g c a sa c1 k1 Hwf Hac Hok E1) as [Hok1 [G1 Hsa]].
+  destruct (mem_nat b sa) eqn:Em.
+  - exists true, c1, k1. split; [reflexivity |]. split; [exact Hok1 |]. split.
+    + apply (grows_by_weaken g c c1 k1 1 2 [a] [a; b] G1); [lia |].
+      intros x [Hx | []]. left. exact Hx.
+    + split; [intros _ | reflexivity]. left. apply Hsa. apply mem_nat_spec. exact Em.
+  - pose proof (ancestor_set_c_total g c1 b Hwf (proj1 Hok1)) as T2.
+    destruct (ancestor_set_c g c1 b) as [[[sb c2] k2] |] eqn:E2; [clear T2 | contradiction].
+    destruct (ancestor_set_c_grows g c1 b sb c2 k2 Hwf Hac Hok1 E2) as [Hok2 [G2 Hsb]].
+    exists (mem_nat a sb), c2, (cost_add k1 k2). split; [reflexivity |]. split; [exact Hok2 |]. split.
+    + exact (grows_by_trans g c c1 c2 k1 k2 1 1 [a] [b] G1 G2).
+    + rewrite mem_nat_spec, Hsb. apply mem_nat_false in Em. unfold ordered_spec. split.
+      * intro H. right. exact H.
+      * intros [H | H]; [exfalso; apply Em, Hsa, H | exact H].
+Qed.
+
+(* ------------------------------------------------------------------ the pair loops *)
+
+Definition pair_owners (ps : list (crec * crec)) : list nat :=
+  flat_map (fun p => [cr_owner (fst p); cr_owner (snd p)]) ps.
+
+Lemma cost_add_assoc a b c : cost_add (cost_add a b) c = cost_add a (cost_add b c).
+Proof. unfold cost_add. cbn [c_calls c_pops c_fresh c_merged]. f_equal; lia. Qed.
+
+Lemma cost_add_zero_r a : cost_add a cost_zero = a.
+Proof. destruct a as [x y z w]. unfold cost_add, cost_zero. cbn [c_calls c_pops c_fresh c_merged]. f_equal; lia. Qed.
+
+Lemma cost_add_zero_l a : cost_add cost_zero a = a.
+Proof. destruct a as [x y z w]. reflexivity. Qed.
+
+Lemma detect_loop_spec g :
+  wf_graph g -> acyclic g ->
+  forall ps c k acc, cache_ok g c ->
+  exists out c' kd,
+    detect_loop g ps c k acc = Some (out, c', cost_add k kd) /\ cache_ok g c' /\
+    grows_by g c c' kd (2 * length ps) (pair_owners ps) /\
+    (forall p, In p out <-> In p acc \/ (In p ps /\ conflicting g p)).
+Proof.
+  intros Hwf Hac ps. induction ps as [| p ps IH]; intros c k acc Hok.
+  - exists (rev acc), c, cost_zero. cbn [detect_loop]. rewrite cost_add_zero_r.
+    split; [reflexivity |]. split; [exact Hok |]. split; [apply grows_by_refl |].
+    intro q. rewrite <- in_rev. split; [intro H; left; exact H | intros [H | [[] _]]; exact H].
+  - cbn [detect_loop].
+    destruct (ordered_c_spec g c (cr_owner (fst p)) (cr_owner (snd p)) Hwf Hac Hok)
+      as [r [c1 [k1 [E1 [Hok1 [G1 Hr]]]]]].
+    rewrite E1.
+    destruct (IH c1 (cost_add k k1) (if r then acc else if clash p then p :: acc else acc) Hok1)
+      as [out [c2 [kd [E2 [Hok2 [G2 Hout]]]]]].
+    exists out, c2, (cost_add k1 kd). rewrite <- cost_add_assoc.
+    split; [exact E2 |]. split; [exact Hok2 |]. split.
+    + pose proof (grows_by_trans g c c1 c2 k1 kd _ _ _ _ G1 G2) as G.
+      apply (grows_by_weaken g c c2 _ _ (2 * length (p :: ps)) _ (pair_owners (p :: ps)) G).
+      * cbn [length]. lia.
+      * intros x Hx. exact Hx.
+    + intro q. rewrite Hout. unfold conflicting in *. split.
+      * intros [H | [H1 H2]]; [| right; split; [right; exact H1 | exact H2]].
+        destruct r; [left; exact H |].
+        assert (Hno : ~ ordered_spec g (cr_owner (fst p)) (cr_owner (snd p))).
+        { intro Ho. apply Hr in Ho. discriminate Ho. }
+        destruct (clash p) eqn:Ecl; [| left; exact H].
+        destruct H as [H | H]; [| left; exact H].
+        subst q. right. split; [left; reflexivity |]. split; assumption.
+      * intros [H | [[H1 | H1] [H2 H3]]].
+        -- left. destruct r; [exact H |]. destruct (clash p); [right; exact H | exact H].
+        -- subst q. left. destruct r.
+           ++ exfalso. apply H2. apply Hr. reflexivity.
+           ++ rewrite H3. left. reflexivity.
+        -- right. split; [exact H1 |]. split; assumption.
+Qed.
+
+(* ------------------------------------------------------------------ how many pairs are compared *)
+
+Lemma upairs_length {A} (l : list A) : 2 * length (upairs l) + length l = length l * length l.
+Proof.
+  induction l as [| x l IH]; [reflexivity |].
+  cbn [upairs length]. rewrite app_length, map_length. lia.
+Qed.
+
+Lemma upairs_in {A} (l : list A) x y : In (x, y) (upairs l) -> In x l /\ In y l.
+Proof.
+  induction l as [| z l IH]; [intros [] |].
+  cbn [upairs]. intro H. apply in_app_or in H. destruct H as [H | H].
+  - apply in_map_iff in H. destruct H as [w [E Hw]]. inversion E; subst.
+    split; [left; reflexivity | right; exact Hw].
+  - destruct (IH H) as [H1 H2]. split; right; assumption.
+Qed.
+
+Lemma filter_length {A} (f : A -> bool) l : length (filter f l) <= length l.
+Proof. induction l as [| x l IH]; [simpl; lia |]. simpl. destruct (f x); simpl; lia. Qed.
+
+Lemma of_kind_partition recs :
+  length (of_kind CFile recs) + length (of_kind CDir recs) + length (of_kind CDocker recs) = length recs.
+Proof.
+  unfold of_kind. induction recs as [| r recs IH]; [reflexivity |].
+  cbn [filter]. destruct (cr_kind r); cbn [okind_eqb length]; lia.
+Qed.
+
+Lemma compared_length recs : 2 * length (compared recs) <= length recs * length recs.
+Proof.
+  unfold compared, cmp_docker, cmp_file, cmp_dir, cmp_dirfile.
+  rewrite !app_length, prod_length.
+  pose proof (filter_length same_key (upairs (of_kind CDocker recs))) as H1.
+  pose proof (filter_length same_key (upairs (of_kind CFile recs))) as H2.
+  pose proof (upairs_length (of_kind CDocker recs)) as U1.
+  pose proof (upairs_length (of_kind CFile recs)) as U2.
+  pose proof (upairs_length (of_kind CDir recs)) as U3.
+  pose proof (of_kind_partition recs) as P.
+  nia.
+Qed.
+
+Lemma compared_in recs p : In p (compared recs) -> In (fst p) recs /\ In (snd p) recs.
+Proof.
+  assert (K : forall k x, In x (of_kind k recs) -> In x recs).
+  { intros k x Hx. unfold of_kind in Hx. apply filter_In in Hx. exact (proj1 Hx). }
+  destruct p as [x y]. unfold compared, cmp_docker, cmp_file, cmp_dir, cmp_dirfile. cbn [fst snd].
+  intro H. repeat (apply in_app_or in H; destruct H as [H | H]).
+  - apply filter_In in H. destruct H as [H _]. apply upairs_in in H. destruct H; split; eapply K; eassumption.
+  - apply filter_In in H. destruct H as [H _]. apply upairs_in in H. destruct H; split; eapply K; eassumption.
+  - apply upairs_in in H. destruct H; split; eapply K; eassumption.
+  - apply in_prod_iff in H. destruct H; split; eapply K; eassumption.
+Qed.
+
+Lemma pair_owners_in ps x :
+  In x (pair_owners ps) -> exists p, In p ps /\ (x = cr_owner (fst p) \/ x = cr_owner (snd p)).
+Proof.
+  unfold pair_owners. intro H. apply in_flat_map in H. destruct H as [p [Hp Hx]].
+  exists p. split; [exact Hp |]. destruct Hx as [Hx | [Hx | []]]; [left | right]; symmetry; exact Hx.
+Qed.
+
+Lemma compared_owners recs x : In x (pair_owners (compared recs)) -> In x (map cr_owner recs).
+Proof.
+  intro H. apply pair_owners_in in H. destruct H as [p [Hp Hx]].
+  destruct (compared_in recs p Hp) as [H1 H2].
+  destruct Hx as [Hx | Hx]; subst x; apply in_map; assumption.
+Qed.
+
+Lemma n_owners_le_records recs : n_owners recs <= length recs.
+Proof.
+  unfold n_owners. rewrite <- (map_length cr_owner recs).
+  apply NoDup_incl_length; [apply NoDup_nodup |]. intros x Hx. apply nodup_In in Hx. exact Hx.
+Qed.
+
+Lemma n_owners_le_size g recs : owners_ok g recs -> n_owners recs <= size g.
+Proof.
+  intro Hok. unfold n_owners. apply nodup_below_length; [apply NoDup_nodup |].
+  intros x Hx. apply nodup_In in Hx. apply in_map_iff in Hx. destruct Hx as [r [E Hr]]. subst x. exact (Hok r Hr).
+Qed.
+
+(* ------------------------------------------------------------------ the whole detection *)
+
+(* m = the getAncestorSet calls that missed the cache = the size of the final cache *)
+Definition detect_cost (g : graph) (recs : list crec) (k : cost) : Prop :=
+  exists m,
+    m <= n_owners recs /\ m <= length recs * length recs /\
+    c_calls k <= length recs * length recs /\
+    c_pops k <= m * n_edges g /\ c_fresh k <= m * size g /\ c_merged k <= m * (size g * size g).
+
+Lemma cache_ok_nil g : cache_ok g [].
+Proof. split; [apply cache_sound_nil | constructor]. Qed.
+
+Lemma detect_conflicts_c_spec g recs :
+  wf_graph g -> acyclic g ->
+  exists out c' k,
+    detect_conflicts_c g recs = Some (out, c', k) /\ cache_ok g c' /\ detect_cost g recs k /\
+    (forall p, In p out <-> In p (compared recs) /\ conflicting g p).
+Proof.
+  intros Hwf Hac. unfold detect_conflicts_c.
+  destruct (detect_loop_spec g Hwf Hac (compared recs) [] cost_zero [] (cache_ok_nil g))
+    as [out [c' [kd [E [Hok [[m [M1 [M2 [M3 [M4 [M5 [M6 M7]]]]]]] Hout]]]]]].
+  rewrite cost_add_zero_l in E.
+  exists out, c', kd. split; [exact E |]. split; [exact Hok |]. split.
+  - pose proof (compared_length recs) as HP. cbn [length] in M1. rewrite Nat.add_0_r in M1.
+    exists m. split; [| split; [lia | split; [lia | split; [exact M4 | split; [exact M5 | exact M6]]]]].
+    rewrite <- M1, <- (map_length fst c'). fold (cache_keys c'). unfold n_owners.
+    apply NoDup_incl_length; [exact (proj2 Hok) |].
+    intros x Hx. apply nodup_In. destruct (M7 x Hx) as [[] | H]. exact (compared_owners recs x H).
+  - intro p. rewrite Hout. split; [intros [[] | H]; exact H | intro H; right; exact H].
+Qed.
+
+Theorem detect_conflicts_c_total g recs :
+  wf_graph g -> acyclic g -> detect_conflicts_c g recs <> None.
+Proof.
+  intros Hwf Hac. destruct (detect_conflicts_c_spec g recs Hwf Hac) as [out [c' [k [E _]]]].
+  rewrite E. discriminate.
+Qed.
+
+Lemma detect_conflicts_c_cost g recs out c' k :
+  wf_graph g -> acyclic g -> detect_conflicts_c g recs = Some (out, c', k) -> detect_cost g recs k.
+Proof.
+  intros Hwf Hac E. destruct (detect_conflicts_c_spec g recs Hwf Hac) as [out0 [c0 [k0 [E0 [_ [H _]]]]]].
+  rewrite E in E0. inversion E0; subst. exact H.
+Qed.
+
+(* the reported pairs are exactly the compared pairs that are unordered and clash *)
+Theorem detect_conflicts_c_correct g recs out c' k :
+  wf_graph g -> acyclic g -> detect_conflicts_c g recs = Some (out, c', k) ->
+  forall p, In p out <-> In p (compared recs) /\ conflicting g p.
+Proof.
+  intros Hwf Hac E. destruct (detect_conflicts_c_spec g recs Hwf Hac) as [out0 [c0 [k0 [E0 [_ [_ H]]]]]].
+  rewrite E in E0. inversion E0; subst. exact H.
+Qed.
+
+(* with memoisation: one linear traversal per target that owns an output, one lookup per
+   getAncestorSet call; the merge work is bounded separately *)
+Theorem detect_conflicts_c_sharp g recs out c' k :
+  wf_graph g -> acyclic g -> detect_conflicts_c g recs = Some (out, c', k) ->
+  steps k <= n_owners recs * (size g + n_edges g) + length recs * length recs /\
+  c_merged k <= n_owners recs * (size g * size g).
+Proof.
+  intros Hwf Hac E.
+  destruct (detect_conflicts_c_cost g recs out c' k Hwf Hac E) as [m [M1 [M2 [M3 [M4 [M5 M6]]]]]].
+  unfold steps. split; nia.
+Qed.
+
+(* the simple polynomial: every call bounded on its own *)
+Theorem detect_conflicts_c_poly g recs out c' k :
+  wf_graph g -> acyclic g -> detect_conflicts_c g recs = Some (out, c', k) ->
+  steps k <= length recs * length recs * (size g + n_edges g + 1) /\
+  work k <= length recs * length recs * (size g + n_edges g + 1 + size g * size g).
+Proof.
+  intros Hwf Hac E.
+  destruct (detect_conflicts_c_cost g recs out c' k Hwf Hac E) as [m [M1 [M2 [M3 [M4 [M5 M6]]]]]].
+  unfold work, steps. split; nia.
+Qed.
+
+(* in terms of V and E alone, for records owned by nodes of the graph *)
+Theorem detect_conflicts_c_sharp_VE g recs out c' k :
+  wf_graph g -> acyclic g -> owners_ok g recs -> detect_conflicts_c g recs = Some (out, c', k) ->
+  work k <= size g * (size g + n_edges g + size g * size g) + length recs * length recs.
+Proof.
+  intros Hwf Hac Hown E.
+  destruct (detect_conflicts_c_sharp g recs out c' k Hwf Hac E) as [H1 H2].
+  pose proof (n_owners_le_size g recs Hown) as HT. unfold work. nia.
+Qed.
+
+(* the bound the measurements are held against: no more records than nodes (the harness
+   declares one output on every second node) keeps the steps below 2 (V+E+1)^2 *)
+Theorem detect_conflicts_c_small g recs out c' k :
+  wf_graph g -> acyclic g -> length recs <= size g -> detect_conflicts_c g recs = Some (out, c', k) ->
+  steps k <= 2 * (size g + n_edges g + 1) ^ 2.
+Proof.
+  intros Hwf Hac HR E.
+  destruct (detect_conflicts_c_sharp g recs out c' k Hwf Hac E) as [H1 _].
+  pose proof (n_owners_le_records recs) as HT. cbn [Nat.pow]. nia.
+Qed.
+
+(* ------------------------------------------------------------------ contrast: no seen-set, no cache *)
+
+Lemma anc_step_paths g s s' :
+  anc_step false g [] s = Some s' ->
+  exists a rest, s_stack s = a :: rest /\
+    s' = mkSt (rev (deps g a) ++ rest) (a :: s_set s) (S (s_pops s)) (S (s_fresh s)) (s_merged s).
+Proof.
+  unfold anc_step. destruct (s_stack s) as [| a rest]; [discriminate |].
+  cbn [andb cache_get]. intro H. inversion H. exists a, rest. split; reflexivity.
+Qed.
+
+Lemma flat_map_ext_in {A B} (f h : A -> list B) l :
+  (forall x, In x l -> f x = h x) -> flat_map f l = flat_map h l.
+Proof.
+  intro H. induction l as [| x l IH]; [reflexivity |].
+  cbn [flat_map]. rewrite (H x (or_introl eq_refl)), IH; [reflexivity |].
+  intros y Hy. apply H. right. exact Hy.
+Qed.
+
+(* under a topological numbering the enumeration below n does not depend on the fuel *)
+Lemma paths_fuel g : topo g ->
+  forall f1 f2 n, n < f1 -> n < f2 -> paths (deps g) f1 n = paths (deps g) f2 n.
+Proof.
+  intros Ht f1. induction f1 as [| f1 IH]; intros f2 n H1 H2; [lia |].
+  destruct f2 as [| f2]; [lia |]. rewrite !paths_S. apply flat_map_ext_in.
+  intros d Hd. specialize (Ht n d Hd). f_equal. apply IH; lia.
+Qed.
+
+(* the number of dependency paths ending in a, plus one (= Select.ancestors_paths_cost g a) *)
+Definition pcw (g : graph) (a : nat) : nat := S (length (ancestors_paths g a)).
+Definition sumw (g : graph) (l : list nat) : nat := list_sum (map (pcw g) l).
+
+Lemma pcw_unfold g a : topo g -> pcw g a = S (sumw g (deps g a)).
+Proof.
+  intro Ht. unfold sumw, pcw, ancestors_paths. rewrite paths_S, flat_map_length_sum. f_equal. f_equal.
+  apply map_ext_in. intros d Hd. pose proof (Ht a d Hd) as Hlt. cbn [length]. f_equal. f_equal.
+  apply paths_fuel; [exact Ht | lia | lia].
+Qed.
+
+Lemma sumw_app g a b : sumw g (a ++ b) = sumw g a + sumw g b.
+Proof. unfold sumw. rewrite map_app, list_sum_app. reflexivity. Qed.
+
+Lemma sumw_rev g l : sumw g (rev l) = sumw g l.
+Proof.
+  induction l as [| x l IH]; [reflexivity |].
+  cbn [rev]. rewrite sumw_app, IH. unfold sumw. simpl. lia.
+Qed.
+
+Definition paths_inv (g : graph) (K : nat) (s : st) : Prop :=
+  s_pops s + sumw g (s_stack s) = K /\ s_fresh s = s_pops s /\ s_merged s = 0.
+
+Lemma paths_inv_step g K s s' :
+  topo g -> paths_inv g K s -> anc_step false g [] s = Some s' ->
+  paths_inv g K s' /\ sumw g (s_stack s') < sumw g (s_stack s).
+Proof.
+  intros Ht [H1 [H2 H3]] E. apply anc_step_paths in E. destruct E as [a [rest [Es E]]]. subst s'.
+  unfold paths_inv. cbn [s_stack s_pops s_fresh s_merged]. rewrite Es in *.
+  rewrite sumw_app, sumw_rev.
+  assert (Hc : sumw g (a :: rest) = pcw g a + sumw g rest) by reflexivity.
+  rewrite Hc in *. rewrite (pcw_unfold g a Ht) in *. repeat split; lia.
+Qed.
+
+(* the loop without the seen-set pops once per dependency path *)
+Theorem ancestor_set_paths_c_cost g n fuel :
+  topo g -> length (ancestors_paths g n) <= fuel ->
+  exists set k, ancestor_set_paths_c fuel g n = Some (set, k) /\
+    c_pops k = length (ancestors_paths g n) /\ c_fresh k = c_pops k /\ c_merged k = 0 /\
+    S (c_pops k) = ancestors_paths_cost g n.
+Proof.
+  intros Ht Hf. unfold ancestor_set_paths_c.
+  pose (K := length (ancestors_paths g n)).
+  assert (HK : sumw g (rev (deps g n)) = K).
+  { rewrite sumw_rev. pose proof (pcw_unfold g n Ht) as H. unfold pcw in H. unfold K. lia. }
+  destruct (anc_loop_inv false g [] (paths_inv g K) (fun s => sumw g (s_stack s))
+              (fun s s' HP E => paths_inv_step g K s s' Ht HP E) fuel (init_st g n))
+    as [s [El [[H1 [H2 H3]] Es]]].
+  - unfold paths_inv, init_st. cbn [s_stack s_pops s_fresh s_merged]. rewrite HK. repeat split; lia.
+  - unfold init_st. cbn [s_stack]. rewrite HK. exact Hf.
+  - rewrite El. exists (s_set s), (mkCost 1 (s_pops s) (s_fresh s) (s_merged s)).
+    cbn [c_pops c_fresh c_merged]. rewrite Es in H1. change (sumw g []) with 0 in H1.
+    split; [reflexivity |]. rewrite ancestors_paths_cost_eq. unfold K in H1. repeat split; lia.
+Qed.
+
+(* ... which is 2^(d+1) - 2 from the top of the ladder of width 2 and depth d *)
+Theorem ancestor_set_paths_c_ladder2 d fuel :
+  2 ^ (d + 1) - 2 <= fuel ->
+  exists set k, ancestor_set_paths_c fuel (ladder 2 d) (2 * d) = Some (set, k) /\
+    S (c_pops k) = 2 ^ (d + 1) - 1.
+Proof.
+  intro Hf. pose proof (ancestors_cost_ladder2 d) as Hc.
+  pose proof (ancestors_paths_cost_eq (ladder 2 d) (2 * d)) as He.
+  destruct (ancestor_set_paths_c_cost (ladder 2 d) (2 * d) fuel (ladder_topo 2 d)) as [set [k [E [_ [_ [_ H]]]]]].
+  - lia.
+  - exists set, k. split; [exact E | lia].
+Qed.
+
+(* ------------------------------------------------------------------ an empty cache: nothing to merge *)
+
+Lemma anc_loop_nocache g : forall fuel s s',
+  anc_loop true g [] fuel s = LoopDone s' -> s_merged s' = s_merged s.
+Proof.
+  assert (K : forall s s1, anc_step true g [] s = Some s1 -> s_merged s1 = s_merged s).
+  { intros s s1 E. apply anc_step_cases in E.
+    destruct E as [a rest Es Hin E | a rest cs Es Hnin Ec E | a rest Es Hnin Ec E];
+      [subst s1; reflexivity | discriminate Ec | subst s1; reflexivity]. }
+  induction fuel as [| f IH]; intros s s' H; cbn [anc_loop] in H;
+    destruct (anc_step true g [] s) as [s1 |] eqn:E.
+  - discriminate H.
+  - inversion H. reflexivity.
+  - rewrite (IH s1 s' H). exact (K s s1 E).
+  - inversion H. reflexivity.
+Qed.
+
+(* a first call (nothing cached yet) is linear in everything it does *)
+Theorem ancestor_set_c_nocache g n set c' k :
+  wf_graph g -> ~ reach g n n -> ancestor_set_c g [] n = Some (set, c', k) ->
+  c_merged k = 0 /\ work k <= size g + n_edges g + 1.
+Proof.
+  intros Hwf Hac E.
+  pose proof (ancestor_set_c_linear g [] n set c' k Hwf (cache_sound_nil g) Hac E) as Hl.
+  assert (Hm : c_merged k = 0).
+  { unfold ancestor_set_c in E. cbn [cache_get] in E.
+    destruct (anc_loop true g [] (anc_fuel g n) (init_st g n)) as [| s] eqn:El; [discriminate |].
+    apply anc_loop_nocache in El. inversion E; subst. cbn [c_merged]. exact El. }
+  split; [exact Hm |]. unfold work. lia.
+Qed.
+
+(* ------------------------------------------------------------------ concrete graphs *)
+
+Lemma topo_wf g : topo g -> wf_graph g.
+Proof.
+  intros Ht i d Hd. pose proof (Ht i d Hd) as Hlt.
+  destruct (Nat.lt_ge_cases i (size g)) as [L | L]; [lia |].
+  unfold deps, size in *. rewrite (nth_overflow g [] L) in Hd. destruct Hd.
+Qed.
+
+Lemma topob_from_spec : forall g i, topob_from i g = true ->
+  forall j d, In d (nth j g []) -> d < i + j.
+Proof.
+  induction g as [| ds g IH]; intros i H j d Hd.
+  - destruct j; destruct Hd.
+  - cbn [topob_from] in H. apply andb_true_iff in H. destruct H as [H1 H2].
+    destruct j as [| j].
+    + cbn [nth] in Hd. rewrite forallb_forall in H1. specialize (H1 d Hd). apply Nat.ltb_lt in H1. lia.
+    + cbn [nth] in Hd. specialize (IH (S i) H2 j d Hd). lia.
+Qed.
+
+Lemma topob_topo g : topob g = true -> topo g.
+Proof. intros H i d Hd. exact (topob_from_spec g 0 H i d Hd). Qed.
+
+Lemma deps_dense n i : i < n -> deps (dense n) i = seq 0 i.
+Proof.
+  intro Hi. unfold deps, dense.
+  pose proof (map_nth (fun i => seq 0 i) (seq 0 n) 0 i) as E.
+  rewrite seq_nth in E by exact Hi. exact E.
+Qed.
+
+Lemma dense_topo n : topo (dense n).
+Proof.
+  intros i d H. destruct (Nat.lt_ge_cases i n) as [L | L].
+  - rewrite (deps_dense n i L) in H. apply in_seq in H. lia.
+  - unfold deps, dense in H. rewrite nth_overflow in H by (rewrite map_length, seq_length; exact L). destruct H.
+Qed.
+
+Lemma every_second_owners g : owners_ok g (every_second g).
+Proof.
+  intros r Hr. unfold every_second in Hr. apply in_map_iff in Hr. destruct Hr as [i [E Hi]].
+  subst r. cbn [cr_owner]. apply filter_In in Hi. destruct Hi as [Hi _]. apply in_seq in Hi. lia.
+Qed.
+
+(* ------------------------------------------------------------------ non-vacuity and sanity *)
+
+(* a call that finds a non-empty sound cache: the top of ladder 2 6 after layer 3 was cached *)
+Example ancestor_set_c_nonvacuous :
+  exists g c n set c' k,
+    wf_graph g /\ c <> [] /\ cache_sound g c /\ ~ reach g n n /\
+    ancestor_set_c g c n = Some (set, c', k) /\
+    k = mkCost 1 20 12 6 /\ steps k <= size g + n_edges g + 1 /\ length set = 12.
+Proof.
+  pose (g := ladder 2 6).
+  assert (Hwf : wf_graph g) by (apply topo_wf, ladder_topo).
+  assert (E1 : ancestor_set_c g [] 6 = Some ([4; 2; 0; 1; 3; 5], [(6, [4; 2; 0; 1; 3; 5])], mkCost 1 10 6 0))
+    by (vm_compute; reflexivity).
+  destruct (ancestor_set_c_correct g [] 6 _ _ _ Hwf (cache_sound_nil g) E1) as [_ [_ [Hc _]]].
+  exists g, [(6, [4; 2; 0; 1; 3; 5])], 12, [10; 8; 6; 4; 2; 0; 1; 3; 5; 7; 9; 11],
+         [(12, [10; 8; 6; 4; 2; 0; 1; 3; 5; 7; 9; 11]); (6, [4; 2; 0; 1; 3; 5])], (mkCost 1 20 12 6).
+  split; [exact Hwf |]. split; [discriminate |]. split; [exact Hc |].
+  split; [exact (topo_acyclic g (ladder_topo 2 6) 12) |].
+  split; [vm_compute; reflexivity |]. split; [reflexivity |].
+  split; [apply Nat.leb_le; vm_compute; reflexivity | reflexivity].
+Qed.
+
+(* what a detection run is summarised to: conflicts found, cache entries, cost *)
+Definition summary (r : option (list (crec * crec) * cache * cost)) : option (nat * nat * cost) :=
+  match r with Some (out, c, k) => Some (length out, length c, k) | None => None end.
+
+Definition family_ok (g : graph) : Prop :=
+  wf_graph g /\ acyclic g /\ owners_ok g (every_second g).
+
+Lemma family_ok_topo g : topo g -> family_ok g.
+Proof.
+  intro Ht. split; [exact (topo_wf g Ht) |]. split; [exact (topo_acyclic g Ht) | apply every_second_owners].
+Qed.
+
+(* V = 14, E = 24, R = T = 7: 21 pairs, 42 calls of which 7 miss *)
+Example detect_ladder_2_6 :
+  family_ok (ladder 2 6) /\
+  summary (detect_conflicts_c (ladder 2 6) (every_second (ladder 2 6))) = Some (0, 7, mkCost 42 42 42 70) /\
+  (size (ladder 2 6), n_edges (ladder 2 6), length (every_second (ladder 2 6)), n_owners (every_second (ladder 2 6)))
+  = (14, 24, 7, 7).
+Proof.
+  split; [apply family_ok_topo, ladder_topo |]. split; vm_compute; reflexivity.
+Qed.
+
+(* V = 6, E = 15, R = T = 3 *)
+Example detect_dense_6 :
+  family_ok (dense 6) /\
+  summary (detect_conflicts_c (dense 6) (every_second (dense 6))) = Some (0, 3, mkCost 6 10 4 2) /\
+  (size (dense 6), n_edges (dense 6), length (every_second (dense 6)), n_owners (every_second (dense 6)))
+  = (6, 15, 3, 3).
+Proof.
+  split; [apply family_ok_topo, dense_topo |]. split; vm_compute; reflexivity.
+Qed.
+
+(* V = 10, E = 9, R = T = 5 *)
+Example detect_chain_10 :
+  family_ok (chain 10) /\
+  summary (detect_conflicts_c (chain 10) (every_second (chain 10))) = Some (0, 5, mkCost 20 8 8 12) /\
+  (size (chain 10), n_edges (chain 10), length (every_second (chain 10)), n_owners (every_second (chain 10)))
+  = (10, 9, 5, 5).
+Proof.
+  split; [apply family_ok_topo, chain_topo |]. split; vm_compute; reflexivity.
+Qed.
+
+(* conflicts are found: 0 and 1 are unordered (both below 2, which is below 3); they share an
+   image tag, and 0's directory o contains 1's file o/x; 1 and 3 write the same file but are
+   ordered *)
+Definition fork : graph := [[]; []; [0; 1]; [2]].
+Definition key_o : str := ["o"]%char.
+Definition key_ox : str := ["o"; "/"; "x"]%char.
+Definition fork_recs : list crec :=
+  [mkCrec 0 CDir key_o; mkCrec 1 CFile key_ox; mkCrec 3 CFile key_ox;
+   mkCrec 2 CDocker key_o; mkCrec 0 CDocker key_o; mkCrec 1 CDocker key_o].
+
+Example detect_fork :
+  wf_graph fork /\ acyclic fork /\ owners_ok fork fork_recs /\
+  detect_conflicts_c fork fork_recs =
+    Some ([(mkCrec 0 CDocker key_o, mkCrec 1 CDocker key_o); (mkCrec 0 CDir key_o, mkCrec 1 CFile key_ox)],
+          [(3, [1; 0; 2]); (1, []); (0, []); (2, [0; 1])], mkCost 10 3 3 2).
+Proof.
+  assert (Ht : topo fork) by (apply topob_topo; vm_compute; reflexivity).
+  split; [exact (topo_wf fork Ht) |]. split; [exact (topo_acyclic fork Ht) |]. split.
+  - intros r Hr. unfold fork_recs in Hr.
+    repeat (destruct Hr as [Hr | Hr]; [subst r; cbn [cr_owner size fork length]; lia |]). destruct Hr.
+  - vm_compute. reflexivity.
+Qed.
+
+(* the seen-set is what makes the difference: from the top of ladder 2 6 the loop pops 22
+   stack entries with it and 126 (one per dependency path) without *)
+Example seen_set_contrast :
+  (exists set c', ancestor_set_c (ladder 2 6) [] 12 = Some (set, c', mkCost 1 22 12 0)) /\
+  (exists set, ancestor_set_paths_c 126 (ladder 2 6) 12 = Some (set, mkCost 1 126 126 0)).
+Proof. split; eexists; [eexists |]; vm_compute; reflexivity. Qed.
+
+(* without the seen-set no polynomial bound holds: the 30-node ladder exceeds 4 (V+E+1)^2 *)
+Theorem ancestor_set_paths_poly_refuted :
+  exists g n fuel set k, topo g /\ ancestor_set_paths_c fuel g n = Some (set, k) /\
+    S (c_pops k) > 4 * (size g + n_edges g + 1) ^ 2.
+Proof.
+  destruct (ancestor_set_paths_c_ladder2 14 (2 ^ 15 - 2) (le_n _)) as [set [k [E Hk]]].
+  exists (ladder 2 14), (2 * 14), (2 ^ 15 - 2), set, k.
+  split; [apply ladder_topo |]. split; [exact E |].
+  rewrite Hk. unfold gt. apply Nat.ltb_lt. vm_compute. reflexivity.
+Qed.
+
+(* ------------------------------------------------------------------ the same sets as Analysis.v *)
+
+(* an index graph as a set of packages of the label-level model: node i is a target labelled
+   //:nn..n (i letters) depending on the labels of [deps g i] *)
+Definition lab (i : nat) : label := mkLabel [] (repeat "n"%char i).
+Definition to_node (g : graph) (i : nat) : Analysis.node :=
+  Analysis.NTarget (Analysis.mkTarget (lab i) (map lab (deps g i)) [] [] [] [] false).
+Definition to_nodes (g : graph) : Analysis.nodes := map (to_node g) (seq 0 (size g)).
+
+Lemma lab_inj i j : lab i = lab j -> i = j.
+Proof.
+  intro H. apply (f_equal lname) in H. apply (f_equal (@length _)) in H.
+  unfold lab in H. cbn [lname] in H. rewrite !repeat_length in H. exact H.
+Qed.
+
+Lemma in_map_lab x l : In (lab x) (map lab l) <-> In x l.
+Proof.
+  split; [| apply in_map]. intro H. apply in_map_iff in H. destruct H as [y [E Hy]].
+  apply lab_inj in E. subst y. exact Hy.
+Qed.
+
+Lemma deps_in_range g x n : In x (deps g n) -> n < size g.
+Proof.
+  intro H. destruct (Nat.lt_ge_cases n (size g)) as [L | L]; [exact L |].
+  unfold deps, size in *. rewrite (nth_overflow g [] L) in H. destruct H.
+Qed.
+
+Lemma labels_to_nodes g : Analysis.labels (to_nodes g) = map lab (seq 0 (size g)).
+Proof. unfold Analysis.labels, to_nodes. rewrite map_map. reflexivity. Qed.
+
+Lemma NoDup_map_inj {A B} (f : A -> B) l :
+  (forall x y, f x = f y -> x = y) -> NoDup l -> NoDup (map f l).
+Proof.
+  intros Hinj H. induction H as [| x l Hx Hnd IH]; [constructor |].
+  cbn [map]. constructor; [| exact IH]. intro Hin. apply in_map_iff in Hin.
+  destruct Hin as [y [E Hy]]. apply Hinj in E. subst y. exact (Hx Hy).
+Qed.
+
+Lemma to_nodes_nodup g : NoDup (Analysis.labels (to_nodes g)).
+Proof. rewrite labels_to_nodes. apply NoDup_map_inj; [exact lab_inj | apply seq_NoDup]. Qed.
+
+Lemma to_nodes_no_dangling g : wf_graph g -> Analysis.no_dangling (to_nodes g).
+Proof.
+  intros Hwf nd d Hnd Hd. unfold to_nodes in Hnd. apply in_map_iff in Hnd.
+  destruct Hnd as [i [E Hi]]. subst nd. cbn [to_node Analysis.node_deps Analysis.t_deps] in Hd.
+  apply in_map_iff in Hd. destruct Hd as [x [E Hx]]. subst d.
+  rewrite labels_to_nodes. apply in_map. apply in_seq. specialize (Hwf i x Hx). lia.
+Qed.
+
+Lemma to_nodes_edge g A M :
+  Analysis.edge (to_nodes g) A M <-> exists x n, A = lab x /\ M = lab n /\ In x (deps g n).
+Proof.
+  unfold Analysis.edge. split.
+  - intros [nd [Hnd [Hl Hd]]]. unfold to_nodes in Hnd. apply in_map_iff in Hnd.
+    destruct Hnd as [i [E Hi]]. subst nd.
+    cbn [to_node Analysis.node_label Analysis.t_label] in Hl.
+    cbn [to_node Analysis.node_deps Analysis.t_deps] in Hd.
+    apply in_map_iff in Hd. destruct Hd as [x [E Hx]].
+    exists x, i. split; [symmetry; exact E |]. split; [symmetry; exact Hl | exact Hx].
+  - intros [x [n [EA [EM Hx]]]]. subst A M. exists (to_node g n). split.
+    + unfold to_nodes. apply in_map. apply in_seq. pose proof (deps_in_range g x n Hx). lia.
+    + split; [reflexivity |]. cbn [to_node Analysis.node_deps Analysis.t_deps]. apply in_map. exact Hx.
+Qed.
+
+Lemma to_nodes_reach_to g x n : reach g x n -> Analysis.reach (to_nodes g) (lab x) (lab n).
+Proof.
+  intro H. induction H as [x n Hin | x b n Hxb IH Hin].
+  - apply Analysis.reach_step. apply to_nodes_edge. exists x, n. auto.
+  - apply (Analysis.reach_trans (to_nodes g) (lab x) (lab b) (lab n) IH).
+    apply to_nodes_edge. exists b, n. auto.
+Qed.
+
+Lemma to_nodes_reach_from g A M :
+  Analysis.reach (to_nodes g) A M -> exists x n, A = lab x /\ M = lab n /\ reach g x n.
+Proof.
+  intro H. induction H as [A M He | A B M HAB IH He].
+  - apply to_nodes_edge in He. destruct He as [x [n [EA [EM Hx]]]].
+    exists x, n. split; [exact EA |]. split; [exact EM | apply reach_step; exact Hx].
+  - destruct IH as [x [b [EA [EB Hxb]]]].
+    apply to_nodes_edge in He. destruct He as [b' [n [EB' [EM Hb]]]].
+    rewrite EB in EB'. apply lab_inj in EB'. subst b'.
+    exists x, n. split; [exact EA |]. split; [exact EM | exact (reach_trans g x b n Hxb Hb)].
+Qed.
+
+Lemma to_nodes_reach g x n : reach g x n <-> Analysis.reach (to_nodes g) (lab x) (lab n).
+Proof.
+  split; [apply to_nodes_reach_to |]. intro H. apply to_nodes_reach_from in H.
+  destruct H as [x' [n' [Ex [En H]]]]. apply lab_inj in Ex. apply lab_inj in En. subst x' n'. exact H.
+Qed.
+
+(* the set returned by the instrumented, cached, explicit-stack loop is the set the
+   functional model of Analysis.v computes for the same graph *)
+Theorem ancestor_set_c_matches_analysis g c n set c' k :
+  wf_graph g -> cache_sound g c -> ancestor_set_c g c n = Some (set, c', k) ->
+  (forall x, In x set <-> In (lab x) (Analysis.ancestor_set (to_nodes g) (lab n))) /\
+  (forall A, In A (Analysis.ancestor_set (to_nodes g) (lab n)) -> exists x, A = lab x /\ In x set).
+Proof.
+  intros Hwf Hc E.
+  destruct (ancestor_set_c_correct g c n set c' k Hwf Hc E) as [_ [Hset _]].
+  pose proof (to_nodes_nodup g) as Hnd. pose proof (to_nodes_no_dangling g Hwf) as Hdg.
+  split.
+  - intro x. rewrite (Ancestors_proofs.ancestor_set_spec (to_nodes g) (lab n) (lab x) Hnd Hdg).
+    rewrite Hset. apply to_nodes_reach.
+  - intros A HA. apply (Ancestors_proofs.ancestor_set_spec (to_nodes g) (lab n) A Hnd Hdg) in HA.
+    apply to_nodes_reach_from in HA. destruct HA as [x [n' [EA [En H]]]].
+    apply lab_inj in En. subst n'. exists x. split; [exact EA | apply Hset; exact H].
+Qed.
+
+(* and targetsAreOrdered answers what Analysis.ordered answers *)
+Theorem ordered_c_matches_analysis g c a b r c' k :
+  wf_graph g -> acyclic g -> cache_ok g c -> ordered_c g c a b = Some (r, c', k) ->
+  r = Analysis.ordered (to_nodes g) (lab a) (lab b).
+Proof.
+  intros Hwf Hac Hok E.
+  destruct (ordered_c_spec g c a b Hwf Hac Hok) as [r0 [c0 [k0 [E0 [_ [_ Hr]]]]]].
+  rewrite E in E0. inversion E0; subst r0 c0 k0.
+  pose proof (Ancestors_proofs.ordered_iff (to_nodes g) (lab a) (lab b) (to_nodes_nodup g)
+                (to_nodes_no_dangling g Hwf)) as Ho.
+  assert (Hiff : r = true <-> Analysis.ordered (to_nodes g) (lab a) (lab b) = true).
+  { rewrite Hr, Ho. unfold ordered_spec, Analysis.ordered_spec. rewrite <- !to_nodes_reach. tauto. }
+  destruct r; destruct (Analysis.ordered (to_nodes g) (lab a) (lab b)); try reflexivity.
+  - symmetry. apply Hiff. reflexivity.
+  - apply Hiff. reflexivity.
+Qed.
+
+Example matches_analysis_nonvacuous :
+  map lab [10; 8; 6; 4; 2; 0; 1; 3; 5; 7; 9; 11] =
+    rev (Analysis.ancestor_set (to_nodes (ladder 2 6)) (lab 12)) /\
+  Analysis.ordered (to_nodes fork) (lab 0) (lab 1) = false /\
+  Analysis.ordered (to_nodes fork) (lab 1) (lab 3) = true.
+Proof. split; [| split]; vm_compute; reflexivity. Qed.
